@@ -656,8 +656,9 @@ def solve_all(res: UnitResult, budget_s=30.0, both=False, par=4):
     from .solve import solve_many
 
     solve_many(res.vcs, budget_s=budget_s, both=both, par=par)
-    from .solve import sliced_retry
+    from .solve import sliced_retry, strengthened_retry
 
+    strengthened_retry(res.vcs)
     sliced_retry(res.vcs)
     res.secs_solve = time.time() - t0
     return res
